@@ -714,7 +714,11 @@ class Gen:
 
     def blockdata(self):
         ch = self.ch
-        b = {"k": "blockdata", "name": self.name("bd") if ch.bool(2, 3) else None, "uses": [], "decls": [], "doc": None}
+        # (a program has at most one unnamed block data unit)
+        named = ch.bool(2, 3) or getattr(self, "_blank_blockdata", False)
+        b = {"k": "blockdata", "name": self.name("bd") if named else None, "uses": [], "decls": [], "doc": None}
+        if not named:
+            self._blank_blockdata = True
         b["doc"] = self.doc(("blockdata", b["name"]))
         self.common(b)
         if ch.bool(1, 2):
